@@ -10,7 +10,7 @@ namespace RaftVerif.Spec
 
 /-- the node an action acts on -/
 def Action.actor : Action → NodeId
-  | .campaign n => n | .updateTerm n _ => n | .grant n _ _ _ => n | .write n => n | .persist n => n
+  | .campaign n => n | .sendReqVote n => n | .updateTerm n _ => n | .grant n _ _ _ => n | .write n => n | .persist n => n
   | .crash n => n | .sendVote n _ _ => n | .sendAck n _ _ => n | .becomeLeader n _ => n
   | .stepDown n => n | .leaderAppend n _ => n | .sendApp n _ _ _ => n | .sendSnap n _ => n
   | .sendHb n _ _ => n | .leaderCommit n _ _ => n | .handleApp n _ _ _ _ _ => n
@@ -70,9 +70,9 @@ def nodeAfter (s : State) (a : Action) : Node :=
   | a => { nd with vol := volAfter s a, role := roleAfter s a }
 
 def newMsgs (s : State) : Action → List Msg
-  | .campaign n =>
+  | .sendReqVote n =>
       let v := (s.nodes n).vol
-      [Msg.reqVote (v.term + 1) n v.log.lastTerm v.log.length]
+      [Msg.reqVote v.term n v.log.lastTerm v.log.length]
   | .sendVote n t c => [Msg.vote t n c]
   | .sendAck n t k => [Msg.ack t n k]
   | .sendApp n prev cnt commit =>
@@ -118,6 +118,7 @@ theorem apply_nodes (s : State) (a : Action) (m : NodeId) :
     by_cases h1 : pre.length ≤ (s.nodes n).vol.commit
     · simp only [h1, ↓reduceIte]
     · by_cases h2 : List.take pre.length (s.nodes n).vol.log = pre <;> simp only [h1, h2, ↓reduceIte]
+  case sendReqVote n => by_cases h : m = n <;> simp [h]
   case sendVote n t c => by_cases h : m = n <;> simp [h]
   case sendAck n t c => by_cases h : m = n <;> simp [h]
   case sendApp n _ _ _ => by_cases h : m = n <;> simp [h]
